@@ -50,10 +50,14 @@ Definition from_handle (h : handle) : mgr :=
 
 Inductive template := TmplTink | TmplRaw | TmplNil | TmplUnknownPrefix | TmplUnregistered.
 
+(* options of the internal API Manager.AddKeyWithOpts, applied in argument order *)
+Inductive kopt := KStatus (s : status) | KFixedID (id : N) | KPrimary.
+
 Inductive op :=
 | OAdd (t : template)                 (* Manager.Add *)
 | OAddParams (raw : bool)             (* Manager.AddNewKeyFromParameters *)
 | OAddKey (req : option N) (k : N)    (* Manager.AddKey *)
+| OAddOpts (req : option N) (k : N) (opts : list kopt)   (* Manager.AddKeyWithOpts (internal API) *)
 | OSetPrimary (id : N) | OEnable (id : N) | ODisable (id : N) | ODelete (id : N)
 | OHandle                              (* Manager.Handle *)
 | OFromHandle (k : nat).               (* NewManagerFromHandle (k-th handle obtained) *)
@@ -102,6 +106,25 @@ Definition make_handle (l : list entry) : option handle :=
   if existsb (fun e => status_eqb (est e) UnknownStatus) l then None
   else if existsb eprim l then Some l else None.
 
+(* the entry under construction in AddKeyWithOpts *)
+Record pend := mkPend { p_fixed : N; p_has : bool; p_st : status; p_prim : bool }.
+
+Fixpoint apply_opts (req : option N) (p : pend) (opts : list kopt) : option pend :=
+  match opts with
+  | [] => Some p
+  | KStatus s :: t => apply_opts req (mkPend (p_fixed p) (p_has p) s (p_prim p)) t
+  | KFixedID id :: t =>
+      (* WithFixedID: error when the key requires another id *)
+      match req with
+      | Some r => if N.eqb r id then apply_opts req (mkPend id true (p_st p) (p_prim p)) t else None
+      | None => apply_opts req (mkPend id true (p_st p) (p_prim p)) t
+      end
+  | KPrimary :: t => apply_opts req (mkPend (p_fixed p) (p_has p) (p_st p) true) t
+  end.
+
+Definition clear_primary (l : list entry) : list entry :=
+  map (fun e => mkEntry (eid e) (est e) false (ereq e) (ekey e)) l.
+
 Record state := mkState { smgr : mgr; stape : list N; shandles : list handle; sdraws : nat }.
 
 Definition add_fresh (s : state) (req_is_id : bool) (creation_ok : bool) (k : N) : state * result :=
@@ -130,6 +153,28 @@ Definition step (s : state) (o : op) : state * result :=
       if mem id (unavail m) then (s, RErr)
       else (mkState (mkMgr (ents m ++ [mkEntry id Enabled false (Some id) k]) (id :: unavail m))
                     (stape s) (shandles s) (sdraws s), RId id)
+  | OAddOpts req k opts =>
+      let p0 := mkPend (match req with Some r => r | None => 0 end)
+                       (match req with Some _ => true | None => false end) Enabled false in
+      match apply_opts req p0 opts with
+      | None => (s, RErr)
+      | Some p =>
+          if status_eqb (p_st p) UnknownStatus then (s, RErr)
+          else if p_prim p && negb (status_eqb (p_st p) Enabled) then (s, RErr)
+          else
+            let place (id : N) (u' : list N) (t' : list N) (d : nat) :=
+              let old := if p_prim p then clear_primary (ents m) else ents m in
+              (mkState (mkMgr (old ++ [mkEntry id (p_st p) (p_prim p) req k]) u')
+                       t' (shandles s) (sdraws s + d), RId id) in
+            if p_has p then
+              if mem (p_fixed p) (unavail m) then (s, RErr)
+              else place (p_fixed p) (p_fixed p :: unavail m) (stape s) 0%nat
+            else
+              match new_random_id (unavail m) (stape s) 0 with
+              | None => (s, ROutOfTape)
+              | Some (id, u', t', d) => place id u' t' d
+              end
+      end
   | OSetPrimary id =>
       match find_entry (ents m) id with
       | None => (s, RErr)
